@@ -24,6 +24,9 @@ def run(ctx):
     table_checks(ctx, pols, cfgs, {"term", "stable", "pct"})
     K = make_kinds(ctx.model)
     order.ord1(ctx, K)
+    from ..rules import queryvar
+    from .C12 import roles
+    queryvar.pair_quoting(ctx, roles(ctx.model))     # query text that is not quoted when it is stored is quoted by the next parse
     order.ord2_name(ctx)    # with_name()/with_suffix() never store a dot segment under an authority (a second parse would remove it)
     order.ord2(ctx, K)      # the dot test looks at the quoted text (a %2E decoded by requoting is seen)
     host.h1(ctx)
